@@ -11,6 +11,7 @@ PROPS = {
     "C19": {
         "coq_targets": ["theories/Val/F64Codec.vo"],
         "harness": ["c19"],
+        "disagreement_is_violation": True,
         "axioms": [],
         "trusted_base": COMMON_TB + [
             "Flocq 'IEEE754.Bits' as the definition of the IEEE-754 binary64 interchange encoding; its theorems depend on the standard-library axioms ClassicalDedekindReals.sig_not_dec, ClassicalDedekindReals.sig_forall_dec, FunctionalExtensionality.functional_extensionality_dep, Classical_Prop.classic (C19_cvd_mkd, C19_mkd_cvd only; all other C19 theorems are closed under the global context)",
@@ -25,6 +26,7 @@ PROPS = {
     "C20": {
         "coq_targets": ["theories/PC/Proofs.vo"],
         "harness": ["c20"],
+        "disagreement_is_violation": True,
         "axioms": [],
         "trusted_base": COMMON_TB + [
             "modelled, not verified: rusty_pc/src/{top_level,supplier,filter,filter_map,and,or,many,peek,to_option,or_default,surround,delimited,seq,and_then,and_then_err,map,map_soft_err,map_fatal_err,to_fatal,boxed,lazy,map_decorator}.rs as the deep embedding PC/Model.v (23 constructors); NOT modelled: the context-passing combinators (ctx_parser, iif_ctx, map_ctx, no_context, many_ctx, then_with_in_context, flatten), text/strings.rs (defined from read/filter/many)",
